@@ -48,6 +48,10 @@ class KnownFindings(object):
         if os.path.exists(path):
             with open(path) as f:
                 self.entries = json.load(f)["findings"]
+        import glob
+        for frag in sorted(glob.glob(os.path.join(os.path.dirname(path), "known_findings.d", "*.json"))):
+            with open(frag) as f:
+                self.entries.extend(json.load(f)["findings"])
 
     def open_for(self, prop):
         return {e["signature"]: e for e in self.entries if e["property"] == prop and e["status"] == "open"}
